@@ -271,6 +271,67 @@ def r11e(ctx, rep, cr):
             rep.holds('R11e', f, 'push#%d after re-check' % k, '%d test(s) on guard data and key' % len(tests))
 
 
+def r11f(ctx, rep, cr):
+    rep.rule('R11f', 'a prefix scan is one critical section: in MetadataSlab::scan / scan_count / scan_filter_map, once the prefix is known '
+                     'to be non-empty (the true edge of prefix.is_empty() cut), no code that visits several shards is reachable — neither '
+                     'an iteration over MetadataSlab.shards nor a call to a method that contains one. Keys with a common non-empty '
+                     'prefix live in one shard; a scan that reads the shards one after another, each under its own lock, can return a '
+                     'set of keys that never existed together')
+    SH = 'tensor_store::metadata_slab::MetadataSlab.shards'
+    slab = {n: f for n, f in cr.fns.items() if n.startswith(MS)}
+
+    def iterates_shards(g):
+        d = None
+        for c in A.calls(g):
+            if re.search(r'::(iter|iter_mut|into_iter|each_ref|par_iter)$', c.resolved) and c.args and c.args[0][0] != 'k':
+                d = d or A.Defs(g)
+                fs = A.place_fields(c.args[0][1])
+                if not fs:
+                    fs, _ = A.origin_fields(g, c.args[0][1][0], d)
+                if SH in fs:
+                    return True
+        return False
+    multi = {A.parent_fn(n) for n, g in slab.items() if iterates_shards(g)}
+    n = 0
+    for name, f in sorted(slab.items()):
+        if not re.match(re.escape(MS) + r'scan\w*$', name) or name in multi and not A.calls_to(f, ('re', r'str>::is_empty$|impl str>::is_empty$')):
+            continue
+        ie = A.calls_to(f, ('re', r'impl str>::is_empty$|str::is_empty$'))
+        if not ie:
+            continue
+        n += 1
+        rep.analysed(f)
+        uses = A.Uses(f)
+        cut = set()
+        for c in ie:
+            cut |= A.call_outcome(f, c, uses).ok
+        R = A.reachable(f, [0], cut_edges=cut)
+        bad = None
+        for c in A.calls(f):
+            if c.bb not in R:
+                continue
+            if c.resolved in multi or A.parent_fn(c.resolved) in multi:
+                bad = c
+        if bad is None and name in multi:
+            # the function itself iterates the shards: is that iteration on the non-empty side?
+            d = A.Defs(f)
+            for c in A.calls(f):
+                if c.bb in R and re.search(r'::(iter|iter_mut|into_iter|each_ref)$', c.resolved) and c.args and c.args[0][0] != 'k':
+                    fs = A.place_fields(c.args[0][1])
+                    if not fs:
+                        fs, _ = A.origin_fields(f, c.args[0][1][0], d)
+                    if SH in fs:
+                        bad = c
+        if bad is not None:
+            rep.violation('R11f', f, 'multi-shard-prefix-scan', f.loc(bad.line),
+                          'with a non-empty prefix the scan reaches %s, which visits the shards one by one under separate locks: a scan '
+                          'racing with writes that land in different shards returns a key set that never existed at any instant' % lib.short(bad.resolved))
+        else:
+            rep.holds('R11f', f, 'non-empty prefix', 'stays within one shard guard')
+    rep.floor('R11f', 'MetadataSlab scan functions with an empty-prefix test', n, 2)
+    rep.notes.append('R11f: multi-shard methods = %s' % sorted(lib.short(x) for x in multi))
+
+
 def run(ctx, rep):
     cr = ctx.crate('tensor_store')
     r11a(ctx, rep, cr)
@@ -278,5 +339,6 @@ def run(ctx, rep):
     r11c(ctx, rep, cr)
     r11d(ctx, rep, cr)
     r11e(ctx, rep, cr)
+    r11f(ctx, rep, cr)
     if ctx.tier == 'thorough':
         witness.run(rep, 'R11a', ['MetadataShardsArePrivate'])
